@@ -58,7 +58,7 @@ IPos == <<X(0), X(1), X(2), X(3), X(100), X(127), X(128), X(255), X(256), X(3276
           XFromDigits(<<1,2,3,4,5,6,7,8,9,0,1,2,3,4,5,6,7,8,9>>),
           Pm(63, 1), PS(63, 10), Pm(63, 513), PS(63, 9), PS(63, 39), PS(63, 38),
           P(63), Pp(63, 1), PA(63, 10), Pp(63, 1025), PA(63, 11), XAdd(PA(63, 11), PA(10, 0)), PA(63, 39), XAdd(PA(63, 39), X(1)),
-          XAdd(PA(63, 40), PS(39, 0)),
+          XAdd(PA(63, 40), PS(39, 0)), Pp(63, 5121), XAdd(XAdd(PA(63, 41), PA(39, 0)), X(0)),
           Pm(64, 1), PS(64, 10), Pm(64, 1025), PS(64, 11), PS(64, 40), XSub(PS(64, 40), X(1)), PS(64, 39)>>
 INeg == <<X(1), X(2), X(100), X(128), X(129), X(32768), X(32769), Pp(24, 1), Pp(24, 3), P(31), Pp(31, 1), Pp(32, 1),
           Pp(53, 1), Pp(53, 3), Pm(63, 1), Pm(63, 513), P(63)>>
